@@ -368,6 +368,7 @@ def sqrt(x):
     c = CTX()
     c.side('sqrt-domain', t >= 0)
     c.axiom(z3.And(s >= 0, s * s == t))
+    _enclose(s)
     return SV(s)
 
 
@@ -386,7 +387,106 @@ def cbrt(x):
     s = uf('cbrt', R, R)(t)
     CTX().axiom(z3.And(s * s * s == t, z3.Implies(t >= 0, s >= 0), z3.Implies(t > 0, s > 0),
                        z3.Implies(t <= 0, s <= 0)))
+    _enclose(s)
     return SV(s)
+
+
+# ------------------------------------------------------------------------------------------------
+# numeric enclosures of CLOSED transcendental terms (no free constants): outward-rounded interval arithmetic (mpmath.iv, 40 digits).
+# The enclosure is true of the real function, so adding it to the axioms of the uninterpreted symbol is sound.
+# ------------------------------------------------------------------------------------------------
+def _iv_eval(t):
+    """interval value of a closed z3 real term over + - * / numerals pi and sqrt/cbrt/exp/log/sin/cos/arcsin/arccos/arctan applications; None if not closed"""
+    from mpmath import iv
+    iv.dps = 40
+    if z3.is_rational_value(t) or z3.is_int_value(t):
+        f = Fraction(t.numerator_as_long(), t.denominator_as_long()) if z3.is_rational_value(t) else Fraction(t.as_long())
+        return iv.mpf(f.numerator) / iv.mpf(f.denominator)
+    if not z3.is_app(t):
+        return None
+    k = t.decl().kind()
+    nm = t.decl().name()
+    if t.num_args() == 0:
+        if nm == 'pi':
+            return iv.pi
+        return None
+    ch = [_iv_eval(c) for c in t.children()]
+    if any(c is None for c in ch):
+        return None
+    try:
+        if k == z3.Z3_OP_ADD:
+            r = ch[0]
+            for c in ch[1:]:
+                r = r + c
+            return r
+        if k == z3.Z3_OP_SUB:
+            r = ch[0]
+            for c in ch[1:]:
+                r = r - c
+            return r
+        if k == z3.Z3_OP_UMINUS:
+            return -ch[0]
+        if k == z3.Z3_OP_MUL:
+            r = ch[0]
+            for c in ch[1:]:
+                r = r * c
+            return r
+        if k == z3.Z3_OP_DIV:
+            if ch[1].a <= 0 <= ch[1].b:
+                return None
+            return ch[0] / ch[1]
+        if k == z3.Z3_OP_TO_REAL:
+            return ch[0]
+        if k == z3.Z3_OP_UNINTERPRETED:
+            x = ch[0]
+            if nm == 'sqrt' and x.a >= 0:
+                return iv.sqrt(x)
+            if nm == 'cbrt':
+                if x.a >= 0:
+                    return iv.exp(iv.log(x) / 3) if x.a > 0 else None
+                return None
+            if nm == 'exp':
+                return iv.exp(x)
+            if nm == 'log' and x.a > 0:
+                return iv.log(x)
+            if nm == 'sin':
+                return iv.sin(x)
+            if nm == 'cos':
+                return iv.cos(x)
+            if nm == 'arctan':
+                return iv.atan(x)
+    except Exception:
+        return None
+    return None
+
+
+def _enclose(app):
+    """lo <= app <= hi for a closed application (rational bounds rounded outward)"""
+    c = CTX()
+    if c is None or getattr(c, 'replay', False):
+        return
+    r = _iv_eval(app)
+    if r is None:
+        return
+    import mpmath
+    from fractions import Fraction as F
+    # exact rational end points from the interval's internal (sign, mantissa, exponent) pairs -- no re-rounding
+    def rat(m):
+        sign, man, exp, bc = m
+        v = F(int(man)) * (F(2) ** int(exp))
+        return -v if sign else v
+    a_, b_ = r._mpi_
+    lo, hi = rat(a_), rat(b_)
+    if lo > hi:
+        return
+    # keep the numerals short (12 significant digits, rounded OUTWARD): long rationals slow the nonlinear solver down for no benefit
+    import math
+    mag = max(abs(lo), abs(hi))
+    k = 12 - (0 if mag == 0 else int(math.floor(math.log10(float(mag))) + 1))
+    scale = F(10) ** k
+    lo2 = F(math.floor(lo * scale)) / scale
+    hi2 = F(math.ceil(hi * scale)) / scale
+    c.axiom(z3.And(app >= z3.RealVal(str(lo2)), app <= z3.RealVal(str(hi2))))
 
 
 def exp(x):
@@ -399,6 +499,7 @@ def exp(x):
     c.axiom(z3.And(e > 0, z3.Implies(t <= 0, e <= 1), z3.Implies(t >= 0, e >= 1), z3.Implies(t < 0, e < 1),
                    z3.Implies(t > 0, e > 1)))
     c.mono_pair('exp', t, e, strict=True)
+    _enclose(e)
     return SV(e)
 
 
@@ -413,6 +514,7 @@ def log(x):
     c.axiom(z3.And(z3.Implies(t >= 1, l >= 0), z3.Implies(t <= 1, l <= 0), z3.Implies(t > 1, l > 0),
                    z3.Implies(z3.And(t < 1, t > 0), l < 0)))
     c.mono_pair('log', t, l, strict=True)
+    _enclose(l)
     return SV(l)
 
 
@@ -1507,7 +1609,7 @@ def _uf_apps(fs):
     return out
 
 
-def _random_refute(hyps, goal, tries=3):
+def _random_refute(hyps, goal, tries=3, timeout_ms=3000):
     """cheap search for a counter-model of  hyps => goal : the constants and uninterpreted applications that occur only in the GOAL get random
     values, z3 completes the assignment so that every hypothesis holds (without the negated goal the query is easy), and the goal is then EVALUATED in
     that model.  Finds the counterexamples of failed polynomial identities, where the nonlinear solver's own model search is slow."""
@@ -1534,7 +1636,7 @@ def _random_refute(hyps, goal, tries=3):
         return None
     for k in range(tries):
         sl = z3.Solver()
-        sl.set('timeout', 3000)
+        sl.set('timeout', timeout_ms)
         for h in hyps:
             sl.add(h)
         ok = True
@@ -1641,7 +1743,7 @@ def discharge(hyps, goal, timeout_ms, quick=False, refute_first=False):
         pass
     # (R) random search for a verified counter-model (cheap; catches failed polynomial identities whose models the nonlinear solver finds slowly)
     try:
-        am = _random_refute(hyps, goal)
+        am = None if refute_first else _random_refute(hyps, goal, tries=1, timeout_ms=800)      # (already tried above when refute_first)
         if am is not None:
             mm = None
             if c is not None:
